@@ -18,11 +18,14 @@ KINDS = {
     "str": ("str", "'s'", None, "5", "''"),
     "generic": ("list[int]", "[1, 2]", None, "(1, 2)", "[]"),
     "tuple": ("tuple", "(1,)", None, "[1]", "()"),
+    # robot objects that happen to be callable: a class stored as a value, an instance with __call__
+    "klass": ("type", "TS", None, "5", None),
+    "callable": ("CallT", "CallT()", None, "W()", None),
 }
 SAME = ["absent", "right", "subclass", "wrong", "falsy", "none"]
 PREF = ["absent", "right", "wrong"]
 WHERE = ["class", "createObjects", "base-class", "base-createObjects"]
-SIDE = ["novalue", "preset", "init", "private", "inherited", "inherited-preset", "also-ctor-param"]
+SIDE = ["novalue", "preset", "init", "private", "inherited", "inherited-preset", "also-ctor-param", "mixin-second-base"]
 ENTITY = ["attr", "ctor", "mode"]
 
 PRELUDE = ""
@@ -40,9 +43,15 @@ class W:
     pass
 
 
+class CallT:
+    def __call__(self):
+        return 1
+
+
 import builtins as _b
 
 _b._vT = T
+_b._vCallT = CallT
 
 
 def value_src(kind, role):
@@ -108,6 +117,10 @@ def build_source(sc):
             if sc["side"] == "inherited":
                 src += f"class CBase:\n    {attr}: {ann}\n"
                 src += "class K_c0(CBase):\n"
+            elif sc["side"] == "mixin-second-base":
+                # the annotation comes from a mix-in that is not the first base of the component class
+                src += f"class CBase:\n    pass\nclass CMix:\n    {attr}: {ann}\n"
+                src += "class K_c0(CBase, CMix):\n"
             elif sc["side"] == "inherited-preset":
                 # the value is preset on a base class of the component (found through the MRO, not in the class itself)
                 src += f"class CRoot:\n    {attr}: {ann} = _mk('preset', {value_src(sc['kind'], 'right')})\nclass CBase(CRoot):\n    pass\n"
@@ -134,7 +147,7 @@ def build_source(sc):
             src += "class R(RB):\n    first: K_first\n    c0: K_c0\n"
         else:
             src += "class R(magicbot.MagicRobot):\n    first: K_first\n    c0: K_c0\n" + robot_class_attrs + "    def createObjects(self):\n" + create
-        mann = "builtins._vT" if ann == "T" else ann
+        mann = {"T": "builtins._vT", "CallT": "builtins._vCallT"}.get(ann, ann)
         mode_extra = f"    {attr}: {mann}\n    def setup(self):\n        import builtins\n        builtins._verif_cb('mode.setup', self)\n" if sc["entity"] == "mode" else ""
         return src, cname, mode_extra
     if sc["group"] == "comp":
@@ -243,7 +256,7 @@ def run_scenario(sc, res):
     R._G.fault = {}
     R._G.hooks = [hook]
     src, cname, mode_extra = build_source(sc)
-    g = dict(magicbot=magicbot, _cb=R.cb, _mk=mk, _reg=reg, T=T, TS=TS, W=W)
+    g = dict(magicbot=magicbot, _cb=R.cb, _mk=mk, _reg=reg, T=T, TS=TS, W=W, CallT=CallT)
     lay = R.layout("inj", [], auto=bool(mode_extra), modes=("plain",))
     pkgroot = None
     R._purge_auto_modules()
